@@ -20,8 +20,8 @@
        it would write and the buffer content truncated to size-1 bytes; version_parse = Emu/VersionDefs.version_parse;
      - malloc(sizeof(struct ovni_rcpu)) never fails and yields THE node being built (one scratch cell t_node; only
        ovni_add_cpu allocates, and it links the node before it returns); DL_APPEND appends it to rthread.cpus;
-     - set_thread_cpus (a for loop over the DL list: outside the translated subset) is the fold it computes: the array of
-       {index, phyid} objects in list order stored under "ovni.loom_cpus", die() on JSONFailure;
+     - set_thread_cpus is a counted loop over the DL list: the translator renders it, from the source, as an instance of
+       the generic array_of_list_loop below (key, member names, order and fields come from the C text);
      - free, close, move_thdir_to_final, try_clean_dir, rthread.evbuf / streamfd / thdir: effects outside the metadata
        state (event buffer: C01; relocation: C09/C10): identity here.
    Definitions only; proofs in Proofs/RtMetaGenProofs.v. *)
@@ -241,8 +241,32 @@ Definition json_serialize_to_file_pretty (v : ptr_jvalue) (path : cstr) : M unit
                | _, _, _ => RErr E_FAIL
                end.
 
-(* --- set_thread_cpus: the loop over rthread.cpus, as the fold it computes *)
-Definition set_thread_cpus (meta : ptr_jobject) : M unit :=
+(* --- counted loops that build a JSON array from a DL list (set_thread_cpus).  The translator accepts the C function only in
+   the exact shape: json_value_init_array; for (c = list; c; c = c->next) { fresh object; json_object_set_number(obj, k_i,
+   c->f_i) for each member in order; json_array_append_value }; json_object_dotset_value(meta, key, array); and passes the
+   key, the member names in call order and the field read for each.  Meaning: one object per list element in list order,
+   each built from the empty object by json_object_set_value (fset) in the order of the calls; die() on JSONFailure. *)
+Definition fld_ovni_rcpu_index (c : Z * Z) : Z := fst c.
+Definition fld_ovni_rcpu_phyid (c : Z * Z) : Z := snd c.
+Definition get_rthread_cpus_list (sx : renv) (st : rstate) : list (Z * Z) := r_cpus st.
+Definition loop_object {E} (members : list (cstr * (E -> Z))) (e : E) : option json :=
+  match fold_left (fun acc kf => match acc, fst kf with
+                                 | Some fs, Some k => Some (fset fs k (jnum (snd kf e)))
+                                 | _, _ => None
+                                 end) members (Some []) with
+  | Some fs => Some (jobj fs)
+  | None => None
+  end.
+Definition array_of_list_loop {E} (meta : ptr_jobject) (key : cstr) (l : renv -> rstate -> list E)
+           (members : list (cstr * (E -> Z))) : M unit :=
+  fun sx st => match all_some (map (loop_object members) (l sx st)) with
+               | None => RErr E_DIE                       (* json_object_set_number with a NULL name *)
+               | Some objs => or_die (root_dotset meta key (Some (jarr objs))) sx st
+               end.
+
+(* the fold set_thread_cpus computes, as RtMetaDefs.free_tree writes it (specification; Proofs/RtMetaGenProofs.v proves the
+   generated function equal to it) *)
+Definition set_thread_cpus_fold (meta : ptr_jobject) : M unit :=
   fun sx st => match meta, r_meta st with
                | Some _, Some fs =>
                  match pset fs [k_ovni; k_loom_cpus] (jarr (map cpu_json (r_cpus st))) with
@@ -252,7 +276,45 @@ Definition set_thread_cpus (meta : ptr_jobject) : M unit :=
                | _, _ => RErr E_TRAP
                end.
 
+(* --- ovni_thread_init: memset(&rthread, 0, sizeof(rthread)) zeroes every field of the thread-local struct (the scratch
+   node is not part of rthread); rthread.tid = tid *)
+Definition zero_rthread : M unit :=
+  fun sx st => ROk (tt, mkRs (p_st st) (p_app st) (p_loom st) (p_pid st) 0 0 0 [] (r_node st) 0 0 0 None (r_out st)).
+Definition set_rthread_tid (v : renv -> rstate -> Z) : M unit :=
+  fun sx st => upd (fun s => mkRs (p_st s) (p_app s) (p_loom s) (p_pid s) (r_ready s) (r_finished s) (v sx st) (r_cpus s) (r_node s)
+                                  (r_rank_set s) (r_rank s) (r_nranks s) (r_meta s) (r_out s)) sx st.
+
+(* --- ovni_proc_init: the fields of rproc.  atomic_compare_exchange_strong(&rproc.st, &expected, desired) executed by one
+   thread (two racing callers: unit rtconc): success flag and the value seen; on success rproc.st = desired *)
+Definition with_proc (s : rstate) (st app : Z) (loom : str) (pid : Z) : rstate :=
+  mkRs st app loom pid (r_ready s) (r_finished s) (r_tid s) (r_cpus s) (r_node s)
+       (r_rank_set s) (r_rank s) (r_nranks s) (r_meta s) (r_out s).
+Definition cas_rproc_st (expected desired : Z) : M (Z * Z) :=
+  fun sx st => if p_st st =? expected
+               then ROk ((1, expected), with_proc st desired (p_app st) (p_loom st) (p_pid st))
+               else ROk ((0, p_st st), st).
+Definition set_rproc_st (v : renv -> rstate -> Z) : M unit :=
+  fun sx st => ROk (tt, with_proc st (v sx st) (p_app st) (p_loom st) (p_pid st)).
+Definition set_rproc_app (v : renv -> rstate -> Z) : M unit :=
+  fun sx st => ROk (tt, with_proc st (p_st st) (v sx st) (p_loom st) (p_pid st)).
+Definition set_rproc_pid (v : renv -> rstate -> Z) : M unit :=
+  fun sx st => ROk (tt, with_proc st (p_st st) (p_app st) (p_loom st) (v sx st)).
+(* strcpy(rproc.loom, src): the bytes of src (the length was checked against the array by the caller) *)
+Definition strcpy_rproc_loom (v : renv -> rstate -> cstr) : M unit :=
+  fun sx st => match v sx st with
+               | Some b => ROk (tt, with_proc st (p_st st) (p_app st) b (p_pid st))
+               | None => RErr E_TRAP
+               end.
+Definition set_rproc_clockid (v : renv -> rstate -> Z) : M unit := ret tt.
+Definition create_proc_dir (loom : cstr) (pid : Z) : M unit := ret tt.
+
 (* --- outside the metadata state *)
+(* the event buffer and the stream file of ovni_thread_init (units rtbuf / rtfs): malloc never fails here *)
+Definition malloc (sx : renv) (st : rstate) (size : Z) : ptr_bytes := Some tt.
+Definition set_rthread_evlen (v : renv -> rstate -> Z) : M unit := ret tt.
+Definition create_thread_dir (tid : Z) : M unit := ret tt.
+Definition create_trace_stream : M unit := ret tt.
+Definition write_stream_header : M unit := ret tt.
 Definition free (p : ptr_bytes) : M unit := ret tt.
 Definition close (fd : Z) : M unit := ret tt.
 Definition move_thdir_to_final (a b : cstr) : M unit := ret tt.
